@@ -116,29 +116,38 @@ def _prim(p, env):
 
 
 def _cond(c, env):
-    """returns (truth value, environment holding in the true case): an Any argument that passes is_of_type(x, T, exclude_any=False)
-    is narrowed to T for the rest of an `and` chain and inside the branch (the spec applies normal narrowing rules)."""
+    """returns (truth value, environment if true, environment if false).  An Any argument that passes
+    is_of_type(x, T, exclude_any=False) is narrowed to T where the test is known to hold (the spec applies normal narrowing rules):
+    in the rest of an `and` chain, inside the branch, and - through `not` - in the following elif/else branches."""
     c = c.strip()
     m = re.match(r"not \((.*)\)$", c)
     if m:
-        return (not _cond(m.group(1), env)[0]), env
+        v, et, ef = _cond(m.group(1), env)
+        return (not v), ef, et
     if " or " in c and not c.startswith("not ("):
-        vals = [_cond(p, env)[0] for p in c.split(" or ")]
-        return any(vals), env
+        cur = env
+        for p in c.split(" or "):
+            v, et, ef = _cond(p, cur)
+            if v:
+                return True, et, env
+            cur = ef
+        return False, env, cur
     if " and " in c and not c.startswith("not ("):
         cur = env
         for p in c.split(" and "):
-            v, cur = _cond(p, cur)
+            v, et, ef = _cond(p, cur)
             if not v:
-                return False, env
-        return True, cur
+                return False, env, ef if p == c.split(" and ")[0] else env
+            cur = et
+        return True, cur, env
     if c.startswith("not "):
-        return (not _prim(c[4:], env)), env
+        v, et, ef = _cond(c[4:], env)
+        return (not v), ef, et
     v = _prim(c, env)
     m = re.match(r"is_of_type\(x, (\w+), exclude_any=False\)$", c)
     if v and m and env["x"] == "Any":
-        env = dict(env, x=m.group(1))
-    return v, env
+        return v, dict(env, x=m.group(1)), env
+    return v, env, env
 
 
 def interpret(body, env):
@@ -171,10 +180,15 @@ def interpret(body, env):
                     j = i + 1
                     while j < len(lines) and (len(lines[j]) - len(lines[j].lstrip())) > indent:
                         j += 1
-                    cv, cenv = (True, env) if is_else else _cond(cond, env)
+                    if is_else:
+                        cv, cenv = True, env
+                    else:
+                        cv, cenv, fenv = _cond(cond, env)
                     if not taken and cv:
                         taken = True
                         ret, _ = block(i + 1, indent + 4, cenv)
+                    elif not taken and not is_else:
+                        env = fenv          # the following elif/else branches run where this test is known to be false
                     i = j
                     if i < len(lines) and lines[i].strip().startswith("if ") and (len(lines[i]) - len(lines[i].lstrip())) == indent:
                         break
@@ -290,7 +304,8 @@ def _run(res, tier, bs, base, only=None):
                 ok = rv == want_r and tuple(sorted(set(errs))) == want_e
                 res.outcomes["union:%s" % ("law-holds" if ok else "law-broken")] += 1
                 if not ok:
-                    res.violation({"kind": "union-law", "what": "result" if rv != want_r else "errors", "cond": ck, "has_any": str(int("Any" in t)), "ykind": KINDS[ki][1]}, case,
+                    res.violation({"kind": "union-law", "what": "result" if rv != want_r else "errors", "cond": ck, "has_any": str(int("Any" in t)), "union_test": str(int("is_of_type(x, Union[" in body)),
+                                   "ykind": KINDS[ki][1]}, case,
                                   "%s: members give %s / errors %s, the union gives %s / errors %s" % (desc, sorted(want_r), list(want_e), sorted(rv), list(errs)))
         if (base + bi) % 97 == 0:
             res.sample({"body": body, "call": "f(<Union[int, None]>)", "revealed": sorted(got[("Union[int, None]", 0)][0])})
